@@ -89,7 +89,9 @@ fn handle_build_err(id: &str, msg: String, o: &mut Outcome) -> bool {
     } else if let Some(e) = msg.strip_prefix("REJECTED:") {
         o.fail(&format!("{}/good-spec-rejected", id), format!("a complete deterministic specification was rejected: {}", e));
         false
-    } else if msg.contains("overflow") || msg.contains("too big") || msg.contains("above the cap") {
+    } else if msg.starts_with("loop-range arithmetic overflow (documented panic)") || msg.contains("too big") || msg.contains("above the cap") {
+        // only the discard reasons produced by rx::setup / gen_case themselves; any other panic while
+        // compiling or building (an arithmetic overflow included) is a failure
         true
     } else {
         o.fail(&format!("{}/build-panics", id), format!("building the automaton panicked: {}", msg));
@@ -290,6 +292,66 @@ fn judge_build(spec: &Spec, res: Result<Automaton, aws_smt_strings::errors::Erro
                 return false;
             }
             check_counts(&a, "built automaton", "C13/counts", o);
+            // "for every state and every character": when the builder kept a state for every label, the
+            // labels that are not reachable from the initial one must be implemented too. Which state
+            // belongs to which label is not observable, so some one-to-one correspondence between the
+            // remaining labels and the remaining states has to make the lock-step walk succeed.
+            if a.num_states() == labels.len() && reached.len() < labels.len() {
+                let rest_labels: Vec<u32> = labels.iter().copied().filter(|l| !reached.contains_key(l)).collect();
+                let used: BTreeSet<usize> = reached.values().copied().collect();
+                let rest_states: Vec<usize> = (0..a.num_states()).filter(|i| !used.contains(i)).collect();
+                if rest_labels.len() <= 4 {
+                    o.tag("unreachable-part-compared");
+                    let mut perm: Vec<usize> = (0..rest_states.len()).collect();
+                    let mut found = false;
+                    let mut first_msg = String::new();
+                    // all permutations (Heap's algorithm, at most 24)
+                    let mut c = vec![0usize; perm.len()];
+                    let mut try_perm = |perm: &Vec<usize>| -> bool {
+                        let seeds: Vec<(u32, usize)> = rest_labels.iter().enumerate().map(|(k, &l)| (l, rest_states[perm[k]])).collect();
+                        match crate::spec::lockstep_seeded(spec, &a, &seeds) {
+                            WalkResult::Ok(_) => true,
+                            WalkResult::Mismatch(m) => {
+                                if first_msg.is_empty() {
+                                    first_msg = m;
+                                }
+                                false
+                            }
+                        }
+                    };
+                    if try_perm(&perm) {
+                        found = true;
+                    } else {
+                        let mut i = 0;
+                        while i < perm.len() {
+                            if c[i] < i {
+                                if i % 2 == 0 {
+                                    perm.swap(0, i);
+                                } else {
+                                    perm.swap(c[i], i);
+                                }
+                                if try_perm(&perm) {
+                                    found = true;
+                                    break;
+                                }
+                                c[i] += 1;
+                                i = 0;
+                            } else {
+                                c[i] = 0;
+                                i += 1;
+                            }
+                        }
+                    }
+                    if !found {
+                        o.fail("C13/delta-differs-from-spec", format!("{}: the automaton has a state for each of the {} labels, but no correspondence between the labels {:?} (not reachable from the initial label) and the remaining states {:?} reproduces their transitions and final marks; with the identity correspondence: {}", phase, labels.len(), rest_labels, rest_states, first_msg));
+                        return false;
+                    }
+                    if a.num_final_states() != nfinal {
+                        o.fail("C13/counts", format!("{}: every label has a state but num_final_states = {} and {} labels were marked final", phase, a.num_final_states(), nfinal));
+                        return false;
+                    }
+                }
+            }
             o.tag("accepted");
         }
         Err(e) => {
@@ -440,7 +502,15 @@ fn lockstep_automata(a: &Automaton, b: &Automaton, extra: &[u32]) -> Result<Hash
 fn check_views(name: &str, x: &Automaton, reps: &[u32], o: &mut Outcome) -> bool {
     let cp = x.combined_char_partition();
     let ranges: Vec<(u32, u32)> = (0..cp.len()).map(|i| cp.get(i)).collect();
-    let class_of = |c: u32| -> Option<usize> { ranges.iter().position(|&(lo, hi)| lo <= c && c <= hi) };
+    // the intervals of a partition are sorted and disjoint (checked by C11/C12): binary search
+    let class_of = |c: u32| -> Option<usize> {
+        let k = ranges.partition_point(|&(_, hi)| hi < c);
+        if k < ranges.len() && ranges[k].0 <= c {
+            Some(k)
+        } else {
+            None
+        }
+    };
     // characters of one combined class have identical successors in every state
     let probes = automaton_probe_chars(x, &reps);
     let mut by_class: BTreeMap<Option<usize>, Vec<u32>> = BTreeMap::new();
@@ -1092,6 +1162,39 @@ fn chain_case(n: usize, extra: usize, with_views: bool) -> Outcome {
     o
 }
 
+/// Few states, very many character classes: state i goes on character 2j (j < m) to state (i + j) mod n
+/// and on everything else to state 0; state 1 accepts. The combined partition has m intervals and a
+/// complement, the compiled table 2 bytes-wide column indices no longer suffice beyond 2^16.
+fn wide_alphabet_case(n: usize, m: usize) -> Outcome {
+    use aws_smt_strings::automata::AutomatonBuilder;
+    use aws_smt_strings::character_sets::CharSet;
+    let mut o = Outcome::default();
+    let what = format!("{} states with {} single-character transitions each", n, m);
+    let res = catch(|| {
+        let mut b: AutomatonBuilder<u32> = AutomatonBuilder::new(&0);
+        for i in 0..n {
+            for j in 0..m {
+                b.add_transition(&(i as u32), &CharSet::singleton(2 * j as u32), &(((i + j) % n) as u32));
+            }
+            b.set_default_successor(&(i as u32), &0);
+        }
+        b.mark_final(&1);
+        b.build()
+    });
+    match res {
+        Ok(Ok(a)) => {
+            if a.num_states() != n {
+                o.fail("C14/counts-inconsistent", format!("{}: built automaton has {} states", what, a.num_states()));
+            } else {
+                check_views(&what, &a, &[0, 1, 2, 3, (2 * m) as u32 - 2, (2 * m) as u32 - 1, (2 * m) as u32, MAX], &mut o);
+            }
+        }
+        Ok(Err(e)) => o.fail("C14/good-spec-rejected", format!("{}: build failed: {:?}", what, e)),
+        Err(msg) => o.fail("C14/panics", format!("{}: {}", what, msg)),
+    }
+    o
+}
+
 pub fn enumerate_c14(_thorough: bool, part: usize, parts: usize, sink: &mut crate::runner::EnumSink) {
     // (chain length, unreachable states, also check the views); the views are quadratic in the harness
     let cases: [(usize, usize, bool); 7] = [(1, 0, true), (2, 3, true), (40, 7, true), (700, 300, true), (70_000, 66_000, false), (400_000, 5, false), (1_000_000, 5, false)];
@@ -1102,7 +1205,15 @@ pub fn enumerate_c14(_thorough: bool, part: usize, parts: usize, sink: &mut crat
         let o = crate::runner::on_user_stack(|| chain_case(n, extra, views));
         sink.case(&o, true, || format!("scale case: chain of {} states, {} unreachable", n, extra));
     }
+    for (k, &(n, m)) in [(3usize, 300usize), (5, 70_000)].iter().enumerate() {
+        if (k + 1) % parts != part {
+            continue;
+        }
+        let o = crate::runner::on_user_stack(|| wide_alphabet_case(n, m));
+        sink.case(&o, true, || format!("scale case: {} states x {} labelled characters, all views", n, m));
+    }
     if part == 0 {
+        sink.stats.exhaustive_spaces.push("2 wide-alphabet cases: 3 states x 300 and 5 states x 70 000 single-character transitions: combined partition, representative alphabet, every cell of the compiled successor table, edges".to_string());
         sink.stats.exhaustive_spaces.push("7 scale cases (run on an 8 MiB stack): chains of 1 / 2 / 40 / 700 / 70 000 / 400 000 / 1 000 000 states with a sink and 0 - 66 000 unreachable states (a cycle pointing into the chain): built, pruned, counts and language on fixed words; all views on the four small ones".to_string());
         sink.stats.samples.push("[enum] scale case: chain of 1000000 states + sink + 5 unreachable states".to_string());
     }
